@@ -45,3 +45,14 @@ func VerifCurveID(u *UConn) CurveID { return u.Conn.curveID }
 
 // VerifConnCurveID returns the negotiated key-exchange group of a (server) connection.
 func VerifConnCurveID(c *Conn) CurveID { return c.curveID }
+
+// VerifSessionTicketKeys returns the explicitly configured ticket keys in public form.
+func VerifSessionTicketKeys(c *Config) TicketKeys {
+	c.mutex.RLock()
+	defer c.mutex.RUnlock()
+	var out TicketKeys
+	for _, k := range c.sessionTicketKeys {
+		out = append(out, k.ToPublic())
+	}
+	return out
+}
